@@ -42,22 +42,22 @@ Qed.
 Lemma scalar_rel : forall e r v, cls_v e r = 0 -> eval e r = Some v ->
   exists o, eval_value e r = Ok o /\ Rv v o.
 Proof.
-  induction e; intros r v Hc He; cbn [cls_v] in Hc; try discriminate.
+  induction e as [i|lv|op a IHa b IHb| | | | | | | |]; intros r w Hc He; cbn [cls_v] in Hc; try discriminate.
   - (* ECol *) cbn [eval eval_value] in *. rewrite He in *.
-    destruct v; cbn; try discriminate; eexists; split; try reflexivity; cbn; auto.
+    destruct w; cbn; try discriminate; eexists; split; try reflexivity; cbn; auto.
   - (* ELit *) cbn [eval eval_value] in *. injection He as <-.
-    destruct v0 as [|z|b|s|b]; cbn [lit_value].
+    destruct lv as [|z|b|s|b].
     + eexists; split; [reflexivity|cbn; auto].
     + destruct (z =? - 2 ^ 63) eqn:E1; [discriminate|]. destruct (i64_ok z) eqn:E2; [|discriminate].
       rewrite (i64_lit_value z E1 E2). eexists; split; reflexivity.
-    + destruct (f_finite b); [|discriminate]. eexists; split; reflexivity.
+    + cbn [lit_value]. destruct (f_finite b); [|discriminate]. eexists; split; reflexivity.
     + eexists; split; reflexivity.
     + eexists; split; reflexivity.
   - (* EArith *) split_nz. cbn [eval] in He.
-    destruct (eval e1 r) as [x|] eqn:E1; [|discriminate].
-    destruct (eval e2 r) as [y|] eqn:E2; [|discriminate].
-    destruct (IHe1 r x H eq_refl) as (o1 & V1 & R1).
-    destruct (IHe2 r y H0 eq_refl) as (o2 & V2 & R2).
+    destruct (eval a r) as [x|] eqn:E1; [|discriminate].
+    destruct (eval b r) as [y|] eqn:E2; [|discriminate].
+    destruct (IHa r x H E1) as (o1 & V1 & R1).
+    destruct (IHb r y H0 E2) as (o2 & V2 & R2).
     cbn [eval_value]. rewrite V1, V2.
     destruct x, y; cbn [arith_values] in He; try discriminate; cbn in R1, R2.
     + (* NULL, NULL *) injection He as <-.
